@@ -28,6 +28,15 @@ int main() {
 	double xp[3] = {x[perm[0]], x[perm[1]], x[perm[2]]}; int cp[3];
 	if (!t.searchcenters(xp, cp)) { std::printf("lookup failed after permutation\n"); bad = 1; }
 	else { double v1 = t.ndsplineeval(xp, cp, 0); if (std::fabs(v1 - v0) > 1e-6 * (1 + std::fabs(v0))) { std::printf("value %g differs from %g after permutation\n", v1, v0); bad = 1; } }
+	// a table without extents (what the stacking constructor leaves behind): permuting must not touch the null pointer
+	{
+		vp::TableSpec s2; s2.order = {1, 2}; s2.knots = {{0,1,2,3,4}, {0,1,2,3,4,5,6,7}};
+		splinetable<> u; vp::build(u, s2);       // extents == nullptr, periods == nullptr
+		std::vector<size_t> p2 = {1, 0};
+		std::printf("permuting a table without extents...\n"); std::fflush(stdout);
+		u.permuteDimensions(p2);
+		if (u.get_order(0) != 2 || u.get_nknots(0) != 8) { std::printf("attributes of the extent-less table not permuted\n"); bad = 1; }
+	}
 	std::printf(bad ? "REPLAY: VIOLATION CONFIRMED\n" : "REPLAY: no violation observed\n");
 	return bad ? 3 : 0;
 }
